@@ -32,6 +32,7 @@ from .terms import (Attr, Call, Const, EnumMember, Ext, FuncRef, Ite, New, Op, O
 NUMS = [Fraction(-2), Fraction(-1), Fraction(0), Fraction(1), Fraction(2), Fraction(1, 2)]
 BOOLS = [False, True]
 BOOL_TOKENS = {'and', 'or', 'implies', 'iff', 'not'}
+SET_TOKENS = {'in'}
 CMP_TOKENS = {'=', '!=', '<', '<=', '>', '>='}
 ARITH_TOKENS = {'+', '-', '*', '/', '**'}
 
@@ -67,6 +68,14 @@ BIN = {
     '=': lambda a, b: a == b, '!=': lambda a, b: a != b, '<': lambda a, b: a < b, '<=': lambda a, b: a <= b,
     '>': lambda a, b: a > b, '>=': lambda a, b: a >= b,
 }
+def _member(a, rng):
+    if not (isinstance(rng, tuple) and rng and rng[0] == 'range'):
+        raise Unknown('membership in something that is not a range')
+    _, lo, hi, exlo, exhi = rng
+    return (lo < a if exlo else lo <= a) and (a < hi if exhi else a <= hi)
+
+
+BIN['in'] = _member
 UN = {'not': lambda a: not bool(a), '-': lambda a: -a}
 PY_BIN = {'+': '+', '-': '-', '*': '*', '/': '/', '**': '**', '==': '=', '!=': '!=', '<': '<', '<=': '<=', '>': '>', '>=': '>=', 'is': '=', 'is not': '!='}
 
@@ -91,6 +100,7 @@ class Schema:
         self.constraints: List[Tuple[Term, bool]] = []
         self.uninterpreted: List[str] = []
         self.ih_links: List[Term] = []   # simplifier calls with known structure: they denote what their argument denotes
+        self.nottok: Dict[Term, Set[str]] = {}
         self.vars: List[Term] = []
         self.bin_tok = {m: r['token'] for m, r in binary_rows(ctx).items()}
         self.un_tok = {m: r['token'] for m, r in unary_rows(ctx).items()}
@@ -103,7 +113,7 @@ class Schema:
         t = canon(t)
         if t == self.param:
             return True
-        if isinstance(t, Attr) and t.name in ('operand1', 'operand2'):
+        if isinstance(t, Attr) and t.name in ('operand1', 'operand2', 'min_value', 'max_value'):
             return self.expr_term(t.base)
         if _is_ih(t):
             return True
@@ -121,9 +131,24 @@ class Schema:
                 return canon(b.base), t.args[1].value
         return None
 
+    def op_tokset_test(self, t: Term) -> Optional[Tuple[Term, frozenset]]:
+        """X.operator.is_<kind> for a kind that covers several tokens -> (X, tokens)"""
+        if isinstance(t, Attr) and isinstance(t.base, Attr) and t.base.name == 'operator' and t.name in kind_token_sets(self.ctx) and len(kind_token_sets(self.ctx)[t.name]) > 1:
+            return canon(t.base.base), kind_token_sets(self.ctx)[t.name]
+        return None
+
     def read(self, g: Term, pol: bool):
         while isinstance(g, Op) and g.op == 'not' and len(g.args) == 1:
             g, pol = g.args[0], not pol
+        # tokens ruled out for a sub-expression: not x.operator.is_equality, ...
+        if not pol:
+            for x in ([g] if not (isinstance(g, Op) and g.op == 'or') else list(g.args)):
+                tt0 = self.op_token_test(x)
+                ts0 = self.op_tokset_test(x)
+                if tt0 is not None and tt0[0] != self.param:
+                    self.nottok.setdefault(tt0[0], set()).add(tt0[1])
+                elif ts0 is not None:
+                    self.nottok.setdefault(ts0[0], set()).update(ts0[1])
         if isinstance(g, Op) and ((g.op == 'and' and pol) or (g.op == 'or' and not pol)):
             # structure tests come as conjunctions: isinstance(x, C) and x.operator.token == T
             st = self.structure(g) if pol else None
@@ -151,6 +176,7 @@ class Schema:
         subject = None
         cls = None
         tok = None
+        tokset = None
         arity = None
         lit = 0
         litval: Any = ()
@@ -169,10 +195,15 @@ class Schema:
             elif self.op_token_test(p) is not None:
                 subject2, tok = self.op_token_test(p)
                 subject = subject or subject2
+            elif self.op_tokset_test(p) is not None:
+                subject2, tokset = self.op_tokset_test(p)
+                subject = subject or subject2
             elif isinstance(p, Op) and p.op == 'is' and isinstance(p.args[0], Attr) and p.args[0].name == 'value' and isinstance(p.args[1], Const) and isinstance(p.args[1].value, bool):
                 litval = p.args[1].value
             elif isinstance(p, Call) and isinstance(p.func, Ext) and p.func.name == 'bool':
                 pass  # data_type & NUMBER: typing, not value
+            elif isinstance(p, Attr) and p.name.startswith('can_be_'):
+                subject = subject or canon(p.base)   # typing, not value
             else:
                 return None
         if subject is None or not self.expr_term(subject):
@@ -183,9 +214,17 @@ class Schema:
             if record:
                 self.kind[subject] = ('lit',) if litval == () else ('const', litval)
             return True
+        if cls == 'HplRange':
+            if record:
+                self.kind[subject] = ('range',)
+            return True
         if tok is not None and (cls == 'HplBinaryOperator' or arity == 2):
             if record:
                 self.kind[subject] = ('bin', tok)
+            return True
+        if tokset is not None and (cls == 'HplBinaryOperator' or arity == 2):
+            if record:
+                self.kind[subject] = ('bin-set', tokset)
             return True
         if tok is not None and (cls == 'HplUnaryOperator' or arity == 1):
             if record:
@@ -243,6 +282,9 @@ class Schema:
             return self.den(t.args[0], m)
         if isinstance(t, Attr) and t.name == 'value':
             return self.den(t.base, m)
+        if isinstance(t, Attr) and t.name in ('exclude_min', 'exclude_max') and self.expr_term(t.base):
+            v = self.free(Attr(canon(t.base), t.name))
+            return False if m is None else bool(m[v])
         if isinstance(t, New):
             if t.cls == 'HplLiteral':
                 return self.den(t.get('value'), m)
@@ -294,6 +336,12 @@ class Schema:
         if k[0] == 'lit':
             v = self.free(t)
             return Fraction(1) if m is None else m[v]
+        if k[0] == 'range':
+            fl = [self.free(Attr(t, 'exclude_min')), self.free(Attr(t, 'exclude_max'))]
+            return ('range', self.den(Attr(t, 'min_value'), m), self.den(Attr(t, 'max_value'), m),
+                    False if m is None else bool(m[fl[0]]), False if m is None else bool(m[fl[1]]))
+        if k[0] == 'bin-set':
+            raise Unknown('operator of a sub-expression is one of several')
         if k[0] == 'bin':
             return BIN[k[1]](self.den(Attr(t, 'operand1'), m), self.den(Attr(t, 'operand2'), m))
         return UN[k[1]](self.den(Attr(t, 'operand1'), m))
@@ -318,6 +366,27 @@ class Schema:
             return op.value
         if canon(op) == Attr(self.param, 'operator') and self.token is not None:
             return self.token
+        if isinstance(op, Attr) and op.name == 'operator' and self.kind.get(canon(op.base), ('',))[0] in ('bin', 'un'):
+            return self.kind[canon(op.base)][1]
+        # the mirror operator: INVERSE_OPERATORS.get(x) / [x] / inverse_operator(x) (a raise when there is none)
+        if isinstance(op, Ite):
+            for g_, leaf in alternatives(op):
+                if not any(type(y).__name__ == 'Raises' for y in walk(leaf)):
+                    return self.operator_token(leaf, arity)
+        inner = None
+        if isinstance(op, Call) and getattr(op.func, 'name', None) == 'get' and op.args and 'INVERSE_OPERATORS' in repr(op.func):
+            inner = op.args[0]
+        elif type(op).__name__ == 'Sub' and 'INVERSE_OPERATORS' in repr(op.base):
+            inner = op.index
+        elif _fkey(op) == 'hpl.rewrite:inverse_operator' and op.args:
+            inner = op.args[0]
+        if inner is not None:
+            from .rules_tables import inverse_table
+            tab, _ = inverse_table(self.ctx)
+            t0 = self.operator_token(inner, arity)
+            if t0 not in tab:
+                raise Undefined()
+            return tab[t0]
         raise Unknown(f'operator {op!r}')
 
     # ------------------------------------------------------------ constraints
@@ -328,6 +397,14 @@ class Schema:
         if isinstance(g, Op) and g.op in ('and', 'or'):
             vs = [self.holds(a, m) for a in g.args]
             return all(vs) if g.op == 'and' else any(vs)
+        if isinstance(g, Op) and g.op in ('is', 'is not', '==', '!=') and len(g.args) == 2 and g.args[1] == Const(None) and 'INVERSE_OPERATORS' in repr(g.args[0]):
+            # does the operator have a mirror in the inverse table?
+            try:
+                self.operator_token(g.args[0], 2)
+                has = True
+            except Undefined:
+                has = False
+            return (not has) if g.op in ('is', '==') else has
         if isinstance(g, Op) and g.op in ('==', '!=', '<', '<=', '>', '>=', 'is', 'is not') and len(g.args) == 2:
             a, b = g.args
             if self.expr_term(a) and self.expr_term(b):
@@ -427,6 +504,38 @@ def kind_tokens(ctx: Ctx) -> Dict[str, str]:
     return ctx.memo('R7.kind_tokens', build)
 
 
+def kind_token_sets(ctx: Ctx) -> Dict[str, frozenset]:
+    """is_comparison -> {'=', '!=', '<', ...}: every kind property of the operator definition classes as the set of tokens
+    it accepts"""
+    def build():
+        out: Dict[str, frozenset] = {}
+        for cname in ('UnaryOperatorDefinition', 'BinaryOperatorDefinition'):
+            c = ctx.model.cls(cname, 'R7')
+            self_t = Sym('self', cname)
+            tok = Attr(self_t, 'token')
+
+            def toks(v) -> Optional[frozenset]:
+                if isinstance(v, Op) and v.op == '==' and v.args[0] == tok and isinstance(v.args[1], Const):
+                    return frozenset({v.args[1].value})
+                if isinstance(v, Op) and v.op == 'in' and v.args[0] == tok and type(v.args[1]).__name__ == 'TupleT' and all(isinstance(x, Const) for x in v.args[1].items):
+                    return frozenset(x.value for x in v.args[1].items)
+                if isinstance(v, Op) and v.op == 'or':
+                    parts = [toks(a) for a in v.args]
+                    if all(p_ is not None for p_ in parts):
+                        return frozenset().union(*parts)
+                return None
+            for name, fi in c.methods.items():
+                if fi.kind != 'property' or not name.startswith('is_'):
+                    continue
+                outs = ctx.ev.run(fi, {'self': self_t})
+                if len(outs) == 1 and outs[0].kind == 'return':
+                    ts = toks(outs[0].value)
+                    if ts is not None:
+                        out[name] = (out[name] | ts) if name in out else ts
+        return out
+    return ctx.memo('R7.kind_token_sets', build)
+
+
 def dispatch_tokens(ctx: Ctx) -> Dict[str, Tuple[Optional[str], int]]:
     """simplifier function -> (operator token it is dispatched for | None, arity), read from the dispatchers"""
     ev = rewrite_eval(ctx)
@@ -452,6 +561,76 @@ def dispatch_tokens(ctx: Ctx) -> Dict[str, Tuple[Optional[str], int]]:
     return out
 
 
+def _check_step(r: RuleResult, sc: 'Schema', name: str, fi: FunctionInfo, o: Outcome, gtxt: str, param: Term, undecided: List[str], stats: Dict[str, int]):
+    key = f'{name}: [{gtxt[-110:]}] => {str(o.value)[:70]}'
+    if canon(o.value) == param:
+        stats['decided'] += 1
+        return
+    bad = sc.readable()
+    try:
+        sc.den(o.value, None)
+        sc.apply_input(None)
+    except Undefined:
+        pass
+    except Unknown as e:
+        undecided.append(f'{name}: [{gtxt[-80:]}] output {str(o.value)[:50]}: {e}')
+        return
+    if bad:
+        undecided.append(f'{name}: [{gtxt[-80:]}] guard not readable: {bad[0]}')
+        return
+    boolean = sc.token in BOOL_TOKENS
+    vs = list(sc.vars)
+    if len(vs) > 5:
+        undecided.append(f'{name}: [{gtxt[-80:]}] too many free operands ({len(vs)})')
+        return
+    counter = None
+    checked = 0
+    def domain(v: Term):
+        if isinstance(v, Attr) and v.name in ('exclude_min', 'exclude_max'):
+            return BOOLS
+        if isinstance(v, Attr) and v.name in ('min_value', 'max_value'):
+            return NUMS
+        if sc.token == 'in':
+            return NUMS
+        # operands of a comparison / arithmetic sub-expression are numbers whatever the function is about
+        if isinstance(v, Attr) and v.name in ('operand1', 'operand2'):
+            k = sc.kind.get(v.base)
+            if k is not None and k[0] in ('bin', 'un') and (k[1] in CMP_TOKENS or k[1] in ARITH_TOKENS or (k[0] == 'un' and k[1] == '-')):
+                return NUMS
+            if k is not None and k[0] in ('bin', 'un') and k[1] in BOOL_TOKENS:
+                return BOOLS
+            if v.base == param and sc.token is not None:
+                return BOOLS if sc.token in BOOL_TOKENS else NUMS
+        return BOOLS if boolean else NUMS
+    for choice in itertools.product(*[domain(v) for v in vs]):
+        m = dict(zip(vs, choice))
+        if not sc.satisfied(m):
+            continue
+        try:
+            want = sc.apply_input(m)
+        except Undefined:
+            continue
+        checked += 1
+        try:
+            got = sc.den(o.value, m)
+        except Undefined:
+            counter = (m, want, 'undefined')
+            break
+        if (bool(got) != bool(want)) if isinstance(want, bool) or isinstance(got, bool) else (got != want):
+            counter = (m, want, got)
+            break
+    stats['models'] += checked
+    stats['decided'] += 1
+    if counter is not None:
+        m, want, got = counter
+        ms = ', '.join(f'{str(k)[1:] if str(k).startswith("$") else k}={v}' for k, v in m.items())
+        r.fail(key, f'the step changes the value: with {ms} the input `{sc.token}` denotes {want} but the result denotes {got}', f'{fi.module.relpath}:{o.lineno}', str(want), str(got))
+    elif checked == 0:
+        undecided.append(f'{name}: [{gtxt[-80:]}] no assignment of the model satisfies the guards')
+    else:
+        r.ok(f'{name}: [{gtxt[-60:]}] => {str(o.value)[:40]} ({checked} assignments)')
+
+
 def R7(ctx: Ctx) -> RuleResult:
     r = RuleResult('R7', 'local identities of the simplifier: every guarded rewrite step of the leaf simplification functions denotes the same value as its input in every assignment of a finite model (numbers -2..2 and 1/2, truth values) that satisfies its guards')
     ev = rewrite_eval(ctx)
@@ -459,7 +638,8 @@ def R7(ctx: Ctx) -> RuleResult:
     units = {n: v for n, v in disp.items() if n not in ('_simplify_arithmetic', '_simplify_binary_operator', '_simplify_unary_operator')}
     if len(units) < 8:
         raise AnalysisError('R7', f'only {len(units)} leaf simplifier functions found through the dispatchers: {sorted(units)}')
-    n_steps = n_decided = n_models = 0
+    n_steps = 0
+    stats = {'decided': 0, 'models': 0}
     undecided: List[str] = []
     for name, (tok, arity) in sorted(units.items()):
         fi = ctx.model.func('hpl.rewrite', name, 'R7')
@@ -474,64 +654,22 @@ def R7(ctx: Ctx) -> RuleResult:
             if o.kind != 'return':
                 continue
             n_steps += 1
-            sc = Schema(ctx, param, tok, arity, o)
+            sc0 = Schema(ctx, param, tok, arity, o)
+            sets = [(x, sorted(k[1] - sc0.nottok.get(x, set()))) for x, k in sc0.kind.items() if k[0] == 'bin-set']
+            combos = list(itertools.product(*[ts for _, ts in sets])) if sets else [()]
             gtxt = guards_repr(norm_guards(o.guards))
-            key = f'{name}: [{gtxt[-110:]}] => {str(o.value)[:70]}'
-            if canon(o.value) == param:
-                n_decided += 1
-                continue  # unchanged
-            bad = sc.readable()
-            try:
-                sc.den(o.value, None)
-                sc.apply_input(None)
-            except Undefined:
-                pass
-            except Unknown as e:
-                undecided.append(f'{name}: [{gtxt[-80:]}] output {str(o.value)[:50]}: {e}')
-                continue
-            if bad:
-                undecided.append(f'{name}: [{gtxt[-80:]}] guard not readable: {bad[0]}')
-                continue
-            boolean = sc.token in BOOL_TOKENS
-            vs = list(sc.vars)
-            if len(vs) > 5:
-                undecided.append(f'{name}: [{gtxt[-80:]}] too many free operands ({len(vs)})')
-                continue
-            counter = None
-            checked = 0
-            for choice in itertools.product(BOOLS if boolean else NUMS, repeat=len(vs)):
-                m = dict(zip(vs, choice))
-                if not sc.satisfied(m):
-                    continue
-                try:
-                    want = sc.apply_input(m)
-                except Undefined:
-                    continue
-                checked += 1
-                try:
-                    got = sc.den(o.value, m)
-                except Undefined:
-                    counter = (m, want, 'undefined')
-                    break
-                if (bool(got) != bool(want)) if isinstance(want, bool) or isinstance(got, bool) else (got != want):
-                    counter = (m, want, got)
-                    break
-            n_models += checked
-            n_decided += 1
-            if counter is not None:
-                m, want, got = counter
-                ms = ', '.join(f'{str(k)[1:] if str(k).startswith("$") else k}={v}' for k, v in m.items())
-                r.fail(key, f'the step changes the value: with {ms} the input `{sc.token}` denotes {want} but the result denotes {got}', f'{fi.module.relpath}:{o.lineno}', str(want), str(got))
-            elif checked == 0:
-                undecided.append(f'{name}: [{gtxt[-80:]}] no assignment of the model satisfies the guards')
-            else:
-                r.ok(f'{name}: [{gtxt[-60:]}] => {str(o.value)[:40]} ({checked} assignments)')
+            for combo in combos[:16]:
+                sc = Schema(ctx, param, tok, arity, o)
+                for (x, _), t_ in zip(sets, combo):
+                    sc.kind[x] = ('bin', t_)
+                _check_step(r, sc, name, fi, o, gtxt + (f' {{{",".join(combo)}}}' if combo else ''), param, undecided, stats)
+            continue
     r.counts['leaf simplifier functions'] = len(units)
-    r.counts['assignments checked'] = n_models
+    r.counts['assignments checked'] = stats['models']
     r.counts['steps undecided'] = len(undecided)
     r.notes.extend(undecided[:40])
     r.floor('rewrite steps', n_steps, 55)
-    r.floor('steps decided', n_decided, 50)
+    r.floor('steps decided', stats['decided'], 50)
     return r
 
 
